@@ -2573,11 +2573,15 @@ class Composite(ArmiObject):
 
     def append(self, obj):
         """Append a child to this object."""
+        obj.parent = self
         self._children.append(obj)
 
     def extend(self, seq):
         """Add a list of children to this object."""
-        self._children.extend(seq)
+        children = list(seq)
+        for obj in children:
+            obj.parent = self
+        self._children.extend(children)
 
     def add(self, obj):
         """Add one new child."""
